@@ -65,7 +65,7 @@ def harnesses(tier):
 
 ORACLES = [
     {'name': 'small-scope rule files (.rules both modes, legacy CSV) against a tag-union / neutrality specification', 'script': 'C02.py',
-     'bound': 'rule lists of length <= 3 (quick) / 4 (thorough) over a pool of 13 rules, 6 transactions, both modes; CSV lists <= 3 of 7'},
+     'bound': 'rule lists of length <= 3 (quick) / 4 (thorough) over a pool of 16 rules, 7 transactions, both modes; CSV lists <= 3 of 9 (static and case-significant dynamic tags)'},
 ]
 TRUSTED_BASE = [
     'pyvc symbolic executor', 'z3 5.1.0 / cvc5 1.0.3',
@@ -74,4 +74,4 @@ TRUSTED_BASE = [
 ]
 ASSUMPTIONS = ['A12 purity of rule evaluation (C07/C08 obligations)', 'str.lower/strip uninterpreted (A5)']
 EXPLANATION = ('Loop invariant all_tags == TagsU(k) on the real match() in both modes (set iteration order havocked), neutrality postconditions from the '
-               'statement, _resolve_tags against its spec; bounded stand-in (labelled): small-scope rule files incl. legacy CSV.')
+               'statement; legacy _resolve_dynamic_tags: a {expression} tag evaluates the text between the braces as written, every tag processed; bounded stand-in (labelled): small-scope rule files incl. legacy CSV.')
